@@ -31,7 +31,7 @@ def second_stage(run, r, res):
 
 
 def make_runs(run):
-    n = 60 if run.tier == "quick" else 900
+    n = 60 if run.tier == "quick" else 360
     runs = []
     k = 0
     while len(runs) < n and k < 30 * n:
